@@ -55,11 +55,14 @@ def fault_stage(run, pid, tier, seed, results, judge, identity, extra_identities
                     # treats a violating object as nothing to clean up (DESIGN.md section 9, explicit disjunct of C04):
                     # that case is judged with the object marked as rejected by the dry run (C11's dry-run fault stage)
                     continue
-                cands.append((sc, i, kind, q.split()[0] in ("get", "list")))
+                cands.append((sc, i, kind, "read" if q.split()[0] in ("get", "list") else "dry" if " dry " in q + " " else "write"))
     rng.shuffle(cands)
-    n = 600 if tier == "quick" else 7000
-    reads = [c for c in cands if c[3]][: n // 2]
-    writes = [c for c in cands if not c[3]][: n - len(reads)]
+    n = 750 if tier == "quick" else 9000
+    # a third each: reads (a reconciler may go on with a stale or missing picture), dry runs (preflight of rollout
+    # and teardown), writes
+    reads = [c for c in cands if c[3] == "read"][: n // 3]
+    dry = [c for c in cands if c[3] == "dry"][: n // 3]
+    writes = dry + [c for c in cands if c[3] == "write"][: n - len(reads) - len(dry)]
     scs = [dict(sc, faults={str(i): kind}) for sc, i, kind, _ in reads + writes]
     outs = vlib.run_harness("objectset", scs)
     terms, idx = [], []
